@@ -46,6 +46,9 @@ def decls(tier):
         if tier != "thorough" and len(tags) > 1 and len(seen) % 2:
             continue
         out.append(("func", tags))
+        # positional binding (parameters bound by position are excluded from the keyword lookup)
+        if tier == "thorough" or any(M.MENU_BY_TAG[t].deps for t in tags) or len(seen) % 5 == 0:
+            out.append(("funcpos", tags))
     return out
 
 
@@ -54,7 +57,7 @@ def bounds(tier):
                 runs_per_configuration=4)
 
 
-CHUNK = 4
+CHUNK = 1
 
 
 def shards(tier):
@@ -62,7 +65,7 @@ def shards(tier):
     return [("decl", i, min(i + CHUNK, n)) for i in range(0, n, CHUNK)]
 
 
-def func_source(fields, opt_expr):
+def func_source(fields, opt_expr, positional=False):
     params = []
     for f in fields:
         fd = f.fd
@@ -76,18 +79,20 @@ def func_source(fields, opt_expr):
     req = [p for p in params if "=" not in p]
     opt = [p for p in params if "=" in p]
     order = req + opt
+    star = "" if positional else "*, "
     return ("def make(opts):\n"
             f"    @utype.parse(options=opts)\n"
-            f"    def S(*, {', '.join(order)}, **kw):\n"
+            f"    def S({star}{', '.join(order)}, **kw):\n"
             f"        return dict(locals())\n"
-            f"    return S\n")
+            f"    return S\n"
+            f"make.order = {[p.split(':')[0] for p in order]!r}\n")
 
 
 def build(base, fields, cexpr):
     env = dict(_NS)
     env["__name__"] = "utmc.ns"
-    if base == "func":
-        src = func_source(fields, cexpr)
+    if base in ("func", "funcpos"):
+        src = func_source(fields, cexpr, positional=(base == "funcpos"))
         exec(src, env)
         return env["make"], src
     src = M.class_source(base, fields, cexpr)
@@ -113,6 +118,11 @@ def run_once(base, obj, cexpr, rexpr, dfs, collect, data_expr):
         if base == "func":
             r = obj(o)(**data)
             return ("ok", r)
+        if base == "funcpos":
+            # the first declared parameter is passed by position when the input names it by its own name
+            args = (data.pop(obj.order[0]),) if obj.order[0] in data else ()
+            r = obj(o)(*args, **data)
+            return ("ok", r)
         return ("ok", obj.__from__(data, options=o))
     except uexc.ParseError as e:
         return ("err", c05.errors_of(e))
@@ -123,7 +133,7 @@ def run_once(base, obj, cexpr, rexpr, dfs, collect, data_expr):
 def view(base, fields, st, payload):
     if st != "ok":
         return None
-    if base == "func":
+    if base in ("func", "funcpos"):
         return canon(payload)
     keys, attrs = c05.observe(None, payload, fields)
     return canon((keys, {k: v for k, v in attrs.items()}))
@@ -136,14 +146,14 @@ def run_shard(shard, tier):
         fields = c05.bind_fields(tags)
         for ci, ri in c05.optsets(tier, len(tags)):
             cexpr, copts = M.OPTION_SETS[ci]
-            if base == "func" and any(k in copts for k in ("no_default", "defer_default")):
+            if base.startswith("func") and any(k in copts for k in ("no_default", "defer_default")):
                 continue      # documented as data-class only
             rexpr = None if ri is None else M.OPTION_SETS[ri][0]
             if ri is not None and isinstance(copts.get("addition"), type):
                 continue
             try:
                 obj, src = build(base, fields, cexpr)
-                if base == "func":
+                if base.startswith("func"):
                     obj(eval("Options(" + cexpr + ")", _NS))
             except Exception as e:
                 acc.extra["declarations_rejected_at_build"] += 1
@@ -173,8 +183,14 @@ def one_case(acc, base, tags, fields, obj, src, cexpr, rexpr, items):
     shape = "+".join(tags)
     optk = (cexpr or "-") + "|" + (rexpr or "-")
 
+    dup = ""
+    if base == "funcpos" and obj.order[0] in dict(items):
+        first = obj.order[0]
+        if any(k != first and c05_owner(k, fields, cexpr) == first for k, _ in items):
+            dup = "@keyword-duplicate-of-positional"
+
     def viol(kind, msg):
-        fp = f"C06|{base}|{shape}|{optk}|{kind}"
+        fp = f"C06|{base}|{shape}|{optk}|{kind}{dup}"
         acc.violation(fp, f"{base} [{', '.join(tags)}] Options({cexpr}) runtime={rexpr} input={data_expr}: {msg}",
                       _script(base, src, cexpr, rexpr, tags, items),
                       dict(source=src, runtime=rexpr, input=data_expr))
